@@ -114,14 +114,15 @@ Notation encs := (encs compress).
 Notation hdr_of := (hdr_of compress).
 Notation plen_of := (plen_of compress).
 
-Theorem batch_decode_exact_v2 log l o k hwm :
+Theorem batch_decode_exact_v2_full log l o k hwm :
   log_ok log -> layout_ok log l ->
   Forall (fun b => pb_fmt b = 2) (from_offset l o) -> Forall v2ok (from_offset l o) ->
   from_offset l o <> [] -> valid_cut compress l o k -> hwm <> o ->
   forall fuel, (S (tokens [] (from_offset l o)) <= fuel)%nat ->
   exists ms f,
     fetch_run decomp fuel o hwm (fetch_response compress l o k) (Z.of_nat k) false = Some (ms, EEOF, f)
-    /\ fetch_ok log o ms f.
+    /\ fetch_ok log o ms f
+    /\ (forall b r, hd_error (from_offset l o) = Some b -> In r (pb_recs b) -> o <= r_off r -> ms <> []).
 Proof.
   intros (Hlog1 & Hlog2) (Hrecs & Hpb & Hranges) Hfmt Hv2 Hne Hcut Hhwm fuel Hfuel.
   destruct (from_offset_split l o) as (pre & Hsplit & Hpre).
@@ -204,6 +205,22 @@ Proof.
       intros r _ H. exact H. }
   destruct (a_run_spec compress decomp decomp_law o fuel p0 [] ms x HInv Erun) as (Rp & Rs & G1 & G2 & G3 & G4 & G5).
   cbn [rev app] in G2. unfold p0 in G5. cbn [a_off] in G5.
+  split.
+  2:{ (* progress: the first batch is whole, a record of it at or after o is delivered *)
+      intros b r Hb Hr Hor. cbn [hd_error] in Hb. injection Hb as <-.
+      apply (a_run_nonempty compress decomp decomp_law o fuel p0 [] ms x HInv Erun).
+      apply (a_read_delivers compress decomp decomp_law o (pb_recs b1) p0 fuel eq_refl).
+      - unfold covered, p0. cbn [a_rs a_mode a_b a_j].
+        destruct (pb_recs b1) as [|r1 rs1] eqn:Er1; [exact I|].
+        assert (Hk61p : 61 + plen_of b1 <= Z.of_nat k).
+        { unfold enc1 in Hk1. rewrite app_length in Hk1. pose proof (hdr61_len b1 (plen_of b1)) as H61.
+          unfold ReaderV2Run.plen_of, blen, len in *. lia. }
+        destruct (pb_codec b1 =? 0) eqn:Ec; [|lia].
+        assert (Hp : plen_of b1 = len (erecs b1 (r1 :: rs1))).
+        { unfold ReaderV2Run.plen_of, payload. rewrite Ec, Er1. apply blen_len. }
+        lia.
+      - exists r. split; assumption.
+      - rewrite (tokens_cons_batch compress decomp decomp_law o) in Hfuel. unfold tokens in Hfuel. lia. }
   left. split; [exact G5|]. rewrite G2. unfold mm. f_equal.
   rewrite Hlogsplit. unfold between. rewrite filter_app.
   assert (Hremp : flat_map pb_recs (b1 :: bs') = Rp ++ Rs) by (rewrite <- G1; unfold remp, p0; reflexivity).
@@ -215,6 +232,36 @@ Proof.
   2:{ apply Forall_forall. intros r Hr. specialize (G4 r Hr). lia. }
   cbn [app]. rewrite app_nil_r. apply filter_ext_in'.
   eapply Forall_impl; [|exact G3]. cbn. intros a Ha. lia.
+Qed.
+
+Theorem batch_decode_exact_v2 log l o k hwm :
+  log_ok log -> layout_ok log l ->
+  Forall (fun b => pb_fmt b = 2) (from_offset l o) -> Forall v2ok (from_offset l o) ->
+  from_offset l o <> [] -> valid_cut compress l o k -> hwm <> o ->
+  forall fuel, (S (tokens [] (from_offset l o)) <= fuel)%nat ->
+  exists ms f,
+    fetch_run decomp fuel o hwm (fetch_response compress l o k) (Z.of_nat k) false = Some (ms, EEOF, f)
+    /\ fetch_ok log o ms f.
+Proof.
+  intros H1 H2 H3 H4 H5 H6 H7 fuel H8.
+  destruct (batch_decode_exact_v2_full log l o k hwm H1 H2 H3 H4 H5 H6 H7 fuel H8) as (ms & f & Hr & Hok & _).
+  exists ms, f. split; assumption.
+Qed.
+
+(* C02_progress for v2 responses: when the first batch of the response (whole, by the cut rule)
+   holds a record at or after the fetch offset, at least one message is delivered *)
+Theorem progress_v2 log l o k hwm :
+  log_ok log -> layout_ok log l ->
+  Forall (fun b => pb_fmt b = 2) (from_offset l o) -> Forall v2ok (from_offset l o) ->
+  from_offset l o <> [] -> valid_cut compress l o k -> hwm <> o ->
+  (exists b r, hd_error (from_offset l o) = Some b /\ In r (pb_recs b) /\ o <= r_off r) ->
+  forall fuel ms e f, (S (tokens [] (from_offset l o)) <= fuel)%nat ->
+  fetch_run decomp fuel o hwm (fetch_response compress l o k) (Z.of_nat k) false = Some (ms, e, f) ->
+  ms <> [].
+Proof.
+  intros H1 H2 H3 H4 H5 H6 H7 (b & r & Hb & Hr & Hor) fuel ms e f H8 Hrun.
+  destruct (batch_decode_exact_v2_full log l o k hwm H1 H2 H3 H4 H5 H6 H7 fuel H8) as (ms0 & f0 & Hr0 & _ & Hp).
+  rewrite Hr0 in Hrun. injection Hrun as <- _ _. apply (Hp b r Hb Hr Hor).
 Qed.
 
 (* the link to L2: such a response is a legal answer in the sense of ReaderProofs.ev_ok *)
